@@ -290,11 +290,13 @@ PROPS = {
         parts=[
             Part('codec', lambda h: not h.startswith('bounded_') and not h.startswith('helper_'), real_or_harness,
                  'real crate linked as a dependency: to_array == reference LE encoding, get_insn o to_array = id and to_array o get_insn = id on all 2^64 slots, to_vec == to_array, get_insn at any index, panic exactly outside the program, every builder constructor x symbolic fields == Insn::to_array of the named opcode, push appends the same bytes'),
+            Part('insnvec', lambda h: True, lambda h, c, info=None: True,
+                 'Verus, every program length: the loop of ebpf::to_insn_vec (verbatim) returns len/8 entries, entry i = decode of slot i; get_insn by its Kani-proved contract; the documented panic is unreachable for lengths that are multiples of 8'),
             Part('codec', lambda h: h.startswith('bounded_'), real_or_harness,
-                 'BOUNDED stand-in (3 slots): to_insn_vec loop'),
+                 'BOUNDED cross-check on the real crate (3 slots): to_insn_vec loop'),
         ],
-        level_text='Loop-free full-domain Kani harnesses over the real public API (complete proofs); to_insn_vec loop bounded at 3 slots and labelled bounded.',
-        assumptions=[],
+        level_text='Loop-free full-domain Kani harnesses over the real public API (complete proofs); the to_insn_vec loop is proved for every length by Verus (get_insn through its contract), with a 3-slot bounded Kani harness on the real crate as a cross-check.',
+        assumptions=['insnvec: get_insn is used through its contract (proved by Kani in unit codec), not its body'],
     ),
     'C19': dict(
         title='Built-in helpers compute their documented functions',
